@@ -110,6 +110,11 @@ class Hist(object):
         if k == 'OSetDev' and op[1]:
             self.honest = False
             self.tags.add('pha-dev%d' % op[1])
+        if k == 'OReplayPha' and code == 0:
+            self.honest = False
+            self.tags.add('pha-replay')
+            self.must_fatal.append((False, 'pha-replay', len(self.written[True]), (10, 47), i))
+            self.benign_only = False
         if k == 'OInject':
             self.honest = False
             m, cls, allowed = op[1], op[2], op[3]
@@ -134,7 +139,7 @@ class Hist(object):
                 self.hb_exact = False
                 self.tags.add('hb-oversize')
         # PHA bookkeeping: replies sent by the client in this step
-        if a and k == 'ORead' and any(r[0] == 11 for r in o['recs']):
+        if a and k == 'ORead' and any(r[0] == 11 for r in o['recs']):   # (OReplayPha is not a new reply)
             cv = [r for r in o['recs'] if r[0] == 15]
             fin = [r for r in o['recs'] if r[0] == 20]
             ok = (not cv or cv[0][1] == [1]) and fin and fin[0][1] == [1] and L.dev in (0, 4, 6)
@@ -384,7 +389,8 @@ def deviation(H):
     choices = ['ku-bad-value', 'ku-bad-len', 'unexp-hs', 'nst-to-server', 'certreq-no-pha', 'certreq-from-client',
                'cert-unsolicited', 'cert-unknown-ctx', 'cert-to-client', 'cv-stray', 'fin-stray', 'hb-not-negotiated',
                'hb-empty', 'hb-short-pad', 'hb-unsolicited-resp', 'hb-garbage', 'hb-unknown-type', 'hb-oversize',
-               'hb-oversize-crafted', 'pha-dev', 'pha-dev', 'pha-dev', 'pha-empty-compress', 'hb-mode']
+               'hb-oversize-crafted', 'pha-dev', 'pha-dev', 'pha-dev', 'pha-dev', 'pha-dev', 'pha-empty-compress',
+               'pha-replay', 'pha-replay', 'pha-replay']
     if not v13:
         choices = ['unexp-hs', 'hb-not-negotiated', 'hb-empty', 'hb-short-pad', 'hb-unsolicited-resp', 'hb-garbage',
                    'hb-unknown-type', 'hb-oversize', 'hb-oversize-crafted', 'nst-v12']
@@ -469,6 +475,20 @@ def deviation(H):
             H.do(False, ('ORead', 0))
             if rng.random() < 0.5:
                 H.do(True, ('OSetDev', 0))
+    elif d == 'pha-replay':
+        if L.c._client_keypair and H.open_(True) and H.open_(False):
+            if L.captured is None:
+                H.do(False, ('ORequestAuth', True))
+                H.do(True, ('ORead', 0))
+            if rng.random() < 0.75:
+                H.do(False, ('ORead', 0))          # usually the server has already accepted the original
+            if rng.random() < 0.3:
+                H.do(False, ('ORequestAuth', True))  # another request outstanding: Certificate is an allowed type
+            if rng.random() < 0.3:
+                H.do(True, ('OKeyUpdate', rng.random() < 0.5))
+            if L.captured is not None and L.captured[1]:
+                H.do(True, ('OReplayPha',))
+                H.do(False, ('ORead', 0))
     elif d == 'pha-empty-compress':
         # certificate_compression_receive=[] is accepted by HandshakeSettings.validate()
         H.do(False, ('ORequestAuth', False), tag='pha-empty-compress-list')
@@ -566,6 +586,8 @@ def op_lit(op):
         return '(OSetDev %d)' % op[1]
     if k == 'OInject':
         return '(OInject %s)' % msg_lit(op[1])
+    if k == 'OReplayPha':
+        return 'OReplayPha'
     raise ValueError(k)
 
 
@@ -652,6 +674,29 @@ def model_diag(r):
     return idx, out[-1500:]
 
 
+def eval_cases(ctx, lits, shard):
+    """vlib.coq_bad_indices + one retry (fewer processes) of shards whose coqc was killed (loaded machine)"""
+    import re
+    tmo = 900 if ctx.tier == 'quick' else 2700
+    bad, errs = vlib.coq_bad_indices('C16', IMPORTS, 'caseT', 'chk_case', lits, shard=shard, timeout=tmo)
+    if not errs:
+        return bad, errs
+    ns = max(1, (len(lits) + shard - 1) // shard)
+    redo = sorted(set(int(m.group(1)) for e in errs for m in [re.match(r'C16_(\d+):', e)] if m))
+    if len(redo) != len(errs):
+        return bad, errs
+    ctx.log('retrying %d case shard(s) whose evaluation was killed: %s' % (len(redo), redo))
+    idx = [i for k in redo for i in range(k, len(lits), ns)]
+    saved = vlib.NPROC
+    vlib.NPROC = max(4, saved // 2)
+    try:
+        bad2, errs2 = vlib.coq_bad_indices('C16r', IMPORTS, 'caseT', 'chk_case', [lits[i] for i in idx],
+                                           shard=max(1, len(idx) // 8 + 1), timeout=tmo)
+    finally:
+        vlib.NPROC = saved
+    return sorted(bad + [idx[j] for j in bad2]), errs2
+
+
 # ------------------------------------------------------------------------------------------
 def plan(ctx):
     quick = ctx.tier == 'quick'
@@ -691,6 +736,7 @@ def run(ctx):
     found = False
     tie_broken = None
     good = []
+    known_keys = set(k.get('key') for k in ctx.known if k.get('status') == 'known')
     for r in results:
         if not r['ok']:
             tie_broken = 'history runner failed (seed %d): %s' % (r['seed'], r['err'].splitlines()[-1])
@@ -701,15 +747,14 @@ def run(ctx):
                   sample={'cfg': r['cfg'], 'ops': jops(r['ops'])[:12], 'tags': r['tags']} if len(good) % 61 == 1 else None)
         ctx.count('live-operations', len(r['ops']), [])
         for key, what in r['viol']:
-            found = True
-            ctx.violation(key, what, replay_obj(r))
+            if ctx.violation(key, what, replay_obj(r)):
+                found = True                       # (a known finding does not count as the failing input of a broken tie)
     ctx.log('live histories: %d (%d ops), oracle violations in %d' % (
         len(good), sum(len(r['ops']) for r in good), sum(1 for r in good if r['viol'])))
     # ---- the model on the same histories
     if res['model_ok']:
         lits = [case_lit(r) for r in good]
-        bad, errs = vlib.coq_bad_indices('C16', IMPORTS, 'caseT', 'chk_case', lits,
-                                         shard=max(4, (len(lits) + 31) // 32) if quick else 60)
+        bad, errs = eval_cases(ctx, lits, max(4, (len(lits) + 31) // 32) if quick else 60)
         ctx.count('model-vs-impl(vm_compute)', len(lits), [('agree', len(lits) - len(bad))])
         for e in errs:
             tie_broken = 'case evaluation failed: ' + e[:400]
@@ -721,7 +766,7 @@ def run(ctx):
             impl_o = ({k: (v.hex() if isinstance(v, bytes) else v) for k, v in r['obs'][idx].items()}
                       if idx is not None and 0 <= idx < len(r['obs']) else r['fin'])
             ctx.log(what + '\nmodel: ' + out + '\nimpl: %r cfg=%r' % (impl_o, r['cfg']))
-            if not r['viol']:
+            if not [k for k, _ in r['viol'] if k not in known_keys]:
                 tie_broken = what
                 ctx.notes.append({'disagreement': what, 'model': out, 'impl': impl_o})
                 last_bad = replay_obj(r, {'disagree_at': idx})
@@ -733,8 +778,9 @@ def run(ctx):
                        '(3 suites) and TLS 1.0-1.2; distinct = (version, class, scenario tags, alert codes seen, max generation, '
                        'number of operation kinds)')
     if tie_broken and not found:
-        ctx.violation('tie-broken', tie_broken, {'correspondence': 'Model/C16_PostHs.v vs live tlslite-ng pair', 'detail': tie_broken,
-                                                 'history': locals().get('last_bad')}, found_input=False)
+        rep = dict(locals().get('last_bad') or {})
+        rep.update({'correspondence': 'Model/C16_PostHs.v vs live tlslite-ng pair', 'detail': tie_broken})
+        ctx.violation('tie-broken', tie_broken, rep, found_input=False)
         found = True
     vlib.broken_proof_verdict(ctx, res, found)
 
